@@ -6,7 +6,7 @@
    validation, cache reading); (c) kernel-checked witnesses that the faithful model RAISES on the listed shapes
    and never terminates on a re-export cycle.  Crashes in code that is not modelled can only be met by the
    generated runs of ./check C07, which are testing and are labelled so in the evidence. *)
-From RattrV Require Import Base Str PyAst Naming Context CallSwaps FuncAn Results Imports Annot ImpProofs C07Proofs C11Proofs.
+From RattrV Require Import Base Str PyAst Naming Context CallSwaps FuncAn Results Imports Annot ImpProofs ResFuel C07Proofs C11Proofs.
 Open Scope string_scope.
 Open Scope list_scope.
 
@@ -17,10 +17,15 @@ Theorem C07_import_bfs_terminates :
     (forall q mn o, module_of q = Some mn -> origin_of mn = Some o -> In o U) ->
     (forall o, List.length (imports_in o) <= B) ->
     forall fuel queue seen acc,
-      List.length queue + unseen U seen * B + 1 <= fuel ->
+      List.length queue + ImpProofs.unseen U seen * B + 1 <= fuel ->
       Imports.bfs module_of origin_of blacklisted in_pip in_stdlib follow_pip follow_stdlib imports_in fuel queue seen acc <> None.
 Proof. intros. eapply bfs_terminates; eassumption. Qed.
 Print Assumptions C07_import_bfs_terminates.
+
+(* the call-tree BFS of result generation terminates: its fuel is never exhausted *)
+Theorem C07_call_tree_bfs_terminates :
+  forall excluded (E : env) root, In root E -> build_tree excluded E root <> None.
+Proof. exact build_tree_total. Qed.
 
 (* a rattr_results declaration is accepted or answered with the fatal diagnostic - nothing else *)
 Theorem C07_annotation_accepts_or_is_fatal :
